@@ -5,6 +5,7 @@
    exercised by running the real daemon code with GOMAXPROCS 1..16 and a stalled writer. *)
 From Coq Require Import List ZArith Bool Arith Permutation String.
 From TR Require Import Extracted model.Writer proofs.WriterProofs.
+From TR Require Import model.GoSem model.RawExt translated.ThermalRaw proofs.TieRaw.
 Import ListNotations.
 Close Scope string_scope.
 Open Scope list_scope.
@@ -56,3 +57,94 @@ Theorem C18_constants :
   CPTR_MAGIC = cptr_magic /\ CPTR_VERSION = cptr_version /\ SEC_HEADER = cptr_header_section /\
   SEC_FRAME = cptr_frame_section /\ writer_in_flight = 256.
 Proof. repeat split; reflexivity. Qed.
+
+(* ---- source tie: cmd/thermal-writer/thermalraw.go as it is in /repo now ----
+   coq/translated/ThermalRaw.v is regenerated from the Go source on every run: newBuilder,
+   newThermalRaw, writeFrame, Builder.WriteHeader, Builder.WriteFrame, Builder.Close.  The byte
+   slices the code builds itself (append([]byte("CPTR"), version, 'H', byte(numFields)),
+   []byte{'F', byte(numFields)}), its integer conversions, the order of its writes and its error
+   handling are Gallina; model/RawExt.v states what go-cptv's FieldWriter, the io.WriteCloser, the
+   header source and nextFile do (FieldWriter: one (length, code, data) triple per call,
+   little-endian integers, a string longer than 255 bytes is refused, the field count is a uint8;
+   Write: everything or - on a scripted fault - nothing and an error).
+   Side conditions, all explicit: the writer token is one of the world's writers ([oin]), the frame
+   token one of its byte slices, [cfg_ok]: model, brand and device name are at most 255 bytes
+   (a longer one is silently dropped from the header by the Go code: raw_ex_long_model in
+   proofs/TieRaw.v), nextFile succeeds / fails as stated. *)
+
+(* writeFrame, for every fault script: the three writes of model/Writer.v's frame section
+   ([SEC_FRAME; 1], the FrameSize field, the data) in order, stopping at the first failing Write,
+   whose error is returned; w' differs from w only by those bytes on writer o (and by fresh byte
+   slices) *)
+Theorem C18_source_frame_writes : forall w o t,
+    oin w o -> (Z.to_nat t < List.length (rw_bytes w))%nat ->
+    let r := write_seq (rw_faults w) (frame_model_chunks (rbytes w t)) in
+    exists w', ThermalRaw_fn_writeFrame rext (mkBuilder o) t w = Ok (fst (fst r)) w' /\
+               advanced w w' o (snd (fst r)) (snd r).
+Proof. exact tie_writeFrame. Qed.
+
+(* no fault: exactly [enc_frame] of the frame's bytes, for every frame length (the FrameSize field
+   holds the length mod 2^32, in the Go code as in the model) *)
+Theorem C18_source_frame : forall w o t,
+    oin w o -> (Z.to_nat t < List.length (rw_bytes w))%nat -> rw_faults w = [] ->
+    exists w', ThermalRaw_fn_writeFrame rext (mkBuilder o) t w = Ok 0 w' /\
+               advanced w w' o (enc_frame (rbytes w t)) [].
+Proof. exact tie_writeFrame_ok. Qed.
+
+(* newThermalRaw: a fresh writer; the nine header fields of the model ([thermal_raw_header], the
+   time stamp in microseconds, Go's truncating division) and the file prologue, in two writes *)
+Theorem C18_source_header_writes : forall w t,
+    rw_open_fail w = false -> cfg_ok (rw_cfg w) ->
+    let o := Z.of_nat (List.length (rw_outs w)) in
+    let r := write_seq (rw_faults w) [CPTR_MAGIC ++ [CPTR_VERSION; SEC_HEADER; 9]; enc_fields (raw_header (rw_cfg w) t)] in
+    exists w', ThermalRaw_fn_newThermalRaw rext t w =
+                 Ok (if fst (fst r) =? 0 then mkBuilder o else mkBuilder 0, fst (fst r)) w' /\
+               rw_outs w' = rw_outs w ++ [snd (fst r)] /\ rw_faults w' = snd r /\
+               rw_cfg w' = rw_cfg w /\ rw_open_fail w' = false /\
+               exists m, rw_bytes w' = rw_bytes w ++ m.
+Proof. exact tie_newThermalRaw. Qed.
+
+Theorem C18_source_header : forall w t,
+    rw_open_fail w = false -> cfg_ok (rw_cfg w) -> rw_faults w = [] ->
+    exists w', ThermalRaw_fn_newThermalRaw rext t w = Ok (mkBuilder (Z.of_nat (List.length (rw_outs w))), 0) w' /\
+               rw_outs w' = rw_outs w ++ [enc_header (raw_header (rw_cfg w) t)] /\ rw_faults w' = [] /\
+               rw_cfg w' = rw_cfg w /\ rw_open_fail w' = false /\
+               exists m, rw_bytes w' = rw_bytes w ++ m.
+Proof. exact tie_newThermalRaw_ok. Qed.
+
+Theorem C18_source_open_fail : forall w t,
+    rw_open_fail w = true ->
+    ThermalRaw_fn_newThermalRaw rext t w = Ok (mkBuilder 0, 1) (with_pending w 1).
+Proof. exact tie_newThermalRaw_open_fail. Qed.
+
+(* a whole file - newThermalRaw, then writeFrame for every frame: the bytes are [enc_file], the
+   format C18_parse_roundtrip is about, and parse back to the header fields and the frames *)
+Theorem C18_source_file : forall c t frames,
+    cfg_ok c ->
+    exists w', src_raw_file c t frames [] false = Ok 0 w' /\
+               rw_outs w' = [enc_file (raw_header c t) frames].
+Proof. exact tie_raw_file. Qed.
+
+Theorem C18_source_file_parses : forall c t frames,
+    cfg_ok c -> Forall (fun fr => Z.of_nat (List.length fr) < 2 ^ 32) frames ->
+    exists w' file, src_raw_file c t frames [] false = Ok 0 w' /\ rw_outs w' = [file] /\
+                    parse_file file = Some (raw_header c t, frames).
+Proof. exact tie_raw_file_parses. Qed.
+
+(* the two Builder methods on any field writer fw: the section prologue (the field count is the
+   writer's uint8 counter: the number of fields mod 256) and the encoded fields [, the data] *)
+Theorem C18_source_WriteHeader : forall w o fw,
+    oin w o ->
+    exists w', Builder_WriteHeader rext (mkBuilder o) fw w =
+                 Ok (mkBuilder o, fst (fst (write_seq (rw_faults w) (header_chunks w fw)))) w' /\
+               advanced w w' o (snd (fst (write_seq (rw_faults w) (header_chunks w fw))))
+                        (snd (write_seq (rw_faults w) (header_chunks w fw))).
+Proof. exact tie_WriteHeader_gen. Qed.
+
+Theorem C18_source_WriteFrame : forall w o fw t,
+    oin w o -> (Z.to_nat t < List.length (rw_bytes w))%nat ->
+    exists w', Builder_WriteFrame rext (mkBuilder o) fw t w =
+                 Ok (mkBuilder o, fst (fst (write_seq (rw_faults w) (frame_chunks w fw t)))) w' /\
+               advanced w w' o (snd (fst (write_seq (rw_faults w) (frame_chunks w fw t))))
+                        (snd (write_seq (rw_faults w) (frame_chunks w fw t))).
+Proof. exact tie_WriteFrame_gen. Qed.
